@@ -80,6 +80,15 @@ CLAIMS = {
         "lists vs the Rat model (<= 4 ulp, libm pow), rule size vs step count on a grid. Partial: EPS**(1/scale), log(1.718+|x|), "
         "round(16/log rho) are transcendental inputs of the model.",
    technique="Lean 4 proof on translator-generated definitions + exact/ulp correspondence of counts and sequences"),
+ 'C11': dict(
+   text="Every _assert(cond, msg) guarding the public API is regenerated from the source as a Lean predicate (Gen/Guards.lean); the "
+        "call-path model (which guard lies on which path of Derivative/Gradient/Jacobian/Hessdiag/Hessian.__call__, directionaldiff, "
+        "Residue.__init__, CStepGenerator) is hand-written. Theorems, unbounded in their integers: complex_misuse_raises (all five "
+        "classes, complex/multicomplex, complex x or complex-valued f => ValueError), multicomplex_high_order_raises (n>2), "
+        "too_few_steps_raises, wrong_size_raises, directionaldiff/residue/path guards, fd_weights/fd_derivative guards (C15/C16), and "
+        "valid_call_returns (no false rejection). Outcome is a sum type, so ValueError excludes a numeric result. Tie: the complete "
+        "finite outcome table class x method x flags x dimension x n x order and a malformed stream, executed on the real classes.",
+   technique="Lean 4 decision-logic theorems on translator-generated guards + exhaustive outcome-table correspondence"),
 }
 
 checks = []
